@@ -49,7 +49,7 @@ const C = {
   seqAs: { src: '{(t("q3"), lo.x5) as any}', leaves: ['q3', 'lo.x5'], ts: true },
 };
 const C_KEYS = Object.keys(C);
-const HOSTS = { div: { tag: 'div', component: false }, Comp: { tag: 'Comp', component: true }, frag: { tag: '', component: false }, Unbound: { tag: 'Unb', component: true } };
+const HOSTS = { div: { tag: 'div', component: false }, Comp: { tag: 'Comp', component: true }, frag: { tag: '', component: false }, Unbound: { tag: 'Unb', component: true }, ForeignFragment: { tag: 'Fg', component: true, imports: "import { Fragment as Fg } from 'lib';\n" } };
 
 function mkEnv() {
   const trace = [];
@@ -59,7 +59,7 @@ function mkEnv() {
   const t = (label) => { trace.push(label); return label in values ? values[label] : 'v:' + label; };
   const lo = {};
   for (const l of ['b', 'x2', 'x3', 'x4', 'x5']) Object.defineProperty(lo, l, { get() { trace.push('lo.' + l); return 'v:lo.' + l; } });
-  return { bound: { t, lo, Comp: { __c: 'Comp' }, B: { __c: 'B' } }, mv0: 'mv0', trace, names: new Names() };
+  return { bound: { t, lo, Comp: { __c: 'Comp' }, B: { __c: 'B' } }, mv0: 'mv0', trace, names: new Names(), modules: { lib: { Fragment: { __c: 'lib.Fragment' } } } };
 }
 const PRELUDE = 'const { t, lo, Comp, B } = __env.bound;\nlet mv = __env.mv0;\n';
 
@@ -68,7 +68,7 @@ function render(c) {
   const attrs = c.at.map((k) => A[k].src).join(' ');
   const kids = c.ch.map((k) => C[k].src).join('');
   const J = h.tag === '' ? `<>${kids}</>` : kids ? `<${h.tag}${attrs ? ' ' + attrs : ''}>${kids}</${h.tag}>` : `<${h.tag}${attrs ? ' ' + attrs : ''} />`;
-  return PRELUDE + `__out.mk = () => (${J});\n`;
+  return (h.imports || '') + PRELUDE + `__out.mk = () => (${J});\n`;
 }
 function requests(c) { return [{ src: render(c), ts: c.ch.some((k) => C[k].ts), want: ['eval'], opts: JSON.stringify(c.o) }]; }
 
